@@ -218,8 +218,13 @@ class Backend:
                     self._touch(op)
                     self._world_rec("timer", op, "retry-ready")
             elif kind == "ext":
-                if st == "STARTED":
+                if st == "STARTED" or (st == "PENDING" and op["Type"] == "CHAINED_INVOKE"):
                     self._external(op, data, when)
+            elif kind == "invoke-running":
+                if st == "PENDING":
+                    op["Status"] = "STARTED"
+                    self._touch(op)
+                    self._world_rec("timer", op, "invoke-running", wake=False)
             elif kind == "cb-timeout":
                 if st == "STARTED":
                     op["Status"] = "TIMED_OUT"
@@ -229,8 +234,9 @@ class Backend:
                     self._touch(op)
                     self._world_rec("timer", op, "cb-timeout")
 
-    def _world_rec(self, kind, op, what):
-        self.world_versions.append(self.version)
+    def _world_rec(self, kind, op, what, wake=True):
+        if wake:  # a change the backend invokes the function for
+            self.world_versions.append(self.version)
         self.w.seq += 1
         self.w.trace.append({"s": self.w.seq, "i": self.w.inv, "t": -1, "k": "world", "what": what,
                              "id": op["Id"], "name": op.get("Name"), "status": op["Status"],
@@ -385,6 +391,10 @@ class Backend:
                     op["_payload"] = upd.get("Payload")
                     op["_options"] = upd.get("ChainedInvokeOptions")
                     sc = self.ext_script(upd.get("Name"))
+                    if sc.get("pending_for"):
+                        # accepted but not running yet: the backend reports the chained invoke PENDING for a while
+                        op["Status"] = "PENDING"
+                        self._timer(now + sc["pending_for"], "invoke-running", oid)
                     if sc["outcome"] != "never":
                         self._timer(now + sc.get("delay", 1.0), "ext", oid, sc)
         elif act == "RETRY":
